@@ -46,7 +46,11 @@ theorem dcWrapper_frame {rec : Heap → Item → R Item} (hr : FrameSpec rec) (s
             · exact f1.trans (allocLike_frame _ _ _ _ _ e)
         · split at e
           · exact f1.trans (allocLike_frame _ _ _ _ _ e)
-          · exact f1.trans (allocLike_frame _ _ _ _ _ e)
+          · split at e
+            · split at e
+              · simp only [Prod.mk.injEq] at e; rw [← e.1]; exact f1
+              · exact f1.trans (allocLike_frame _ _ _ _ _ e)
+            · exact f1.trans (allocLike_frame _ _ _ _ _ e)
         · split at e
           · exact f1.trans (allocLike_frame _ _ _ _ _ e)
           · split at e
@@ -224,7 +228,9 @@ theorem dcWrapper_fresh {n0 : Nat} {rec : Heap → Item → R Item} (hr : FrameS
               subst ea
               exact ⟨(hm p hp).1, Nat.lt_of_lt_of_le (hm p hp).2 f1.1⟩
             exact allocLike_fresh le1 s1.1 _ (itemsIn_append s1.2 (itemsIn_single hin)) e
-          · exact allocLike_fresh le1 s1.1 _ s1.2 e
+          · split at e
+            · simp at e
+            · exact allocLike_fresh le1 s1.1 _ s1.2 e
         · split at e
           · rename_i n hn
             obtain ⟨p, hp, rfl⟩ := memoFind_mem hn
@@ -396,7 +402,11 @@ theorem dcWrapper_agree {f g : Heap → Item → R Item} (hfg : AgreeSpec f g) (
             simp only at e ⊢
             cases hn : memoFind memo o with
             | some n => simp only [hn] at e ⊢; exact e
-            | none => simp only [hn] at e ⊢; exact e
+            | none =>
+              simp only [hn] at e ⊢
+              split at e
+              · simp at e
+              · rename_i hsc; simp only [hsc, if_false]; exact e
           | memoOrCopyOwner =>
             simp only at e ⊢
             cases hn : memoFind memo o with
